@@ -131,8 +131,8 @@ Lemma vkeyE_Err : forall u v, V fErr (vkeyE (u, v)) = V fErr [u; v].
 Proof. reflexivity. Qed.
 Lemma py_mem_edge_in : forall (e : N * N) l, In e l -> negb (py_mem PyRt.edge_eqb e l) = false.
 Proof. intros e l H. apply negb_false_iff. apply PyRt.py_mem_edge_In. exact H. Qed.
-Lemma pidx_mem_ : forall k i, In i (py_range (Z.of_nat k)) -> negb (py_mem Z.eqb i (map (fun c : Z => c) (py_range (Z.of_nat k)))) = false.
-Proof. intros. apply negb_false_iff. apply (py_mem_In _ Z.eqb Z.eqb_eq). rewrite map_id. assumption. Qed.
+Lemma pidx_mem_ : forall k i, In i (py_range (Z.of_nat k)) -> negb (py_mem Z.eqb i (py_range (Z.of_nat k))) = false.
+Proof. intros. apply negb_false_iff. apply (py_mem_In _ Z.eqb Z.eqb_eq). assumption. Qed.
 Lemma range_nonempty : forall k, (1 <= k)%nat -> py_list_is_empty (py_range (Z.of_nat k)) = false.
 Proof. intros k H. rewrite py_range_of_nat. destruct k; [lia | reflexivity]. Qed.
 
